@@ -693,7 +693,7 @@ func TestC12CnameGraph(t *testing.T) {
 		cyc := false
 		next := map[string]string{}
 		for i, n := 0, rapid.IntRange(1, 9).Draw(t, "nrec"); i < n; i++ {
-			g := grec{owner: pool[rapid.IntRange(0, 3).Draw(t, "owner")], typ: []uint16{5, 5, 5, 1, 28, 65}[rapid.IntRange(0, 5).Draw(t, "type")]}
+			g := grec{owner: pool[rapid.IntRange(0, 3).Draw(t, "owner")], typ: []uint16{5, 5, 5, 1, 28, 65, 64}[rapid.IntRange(0, 6).Draw(t, "type")]}
 			if g.typ == 5 {
 				g.target = pool[rapid.IntRange(0, 3).Draw(t, "target")]
 				if _, dup := next[g.owner]; !dup {
